@@ -103,6 +103,7 @@ func exprCorpus(thorough bool) []*rexpr {
 		{"string", `"q\"q"`, `q"q`}, {"string", `"b\\s"`, `b\s`}, {"string", `"s\/l"`, "s/l"}, {"string", `"\b\f\n\r\t"`, "\b\f\n\r\t"},
 		{"string", `"{},=[].x"`, "{},=[].x"}, {"string", "\"raw\ttab\"", "raw\ttab"}, {"string", "\"raw\nnewline\"", "raw\nnewline"},
 		{"string", `"é日本😀"`, "é日本😀"},
+		{"string", `"é\n日本"`, "é\n日本"}, {"string", `"\"😀\" ß\\"`, `"😀" ß\`}, {"string", `"tab\tñ"`, "tab\tñ"},
 		{"int", "0xabcdef", "0xabcdef"}, {"int", "0xABCDEF", "0xABCDEF"}, {"int", "0x0123456789", "0x0123456789"}, {"int", "-1234567890", "-1234567890"},
 		{"float", "1234567890.0987654321e+1234567890", "1234567890.0987654321e+1234567890"}, {"float", "5E-7", "5E-7"},
 		{"ident", "abcdefghijklmnopqrstuvwxyz", "abcdefghijklmnopqrstuvwxyz"}, {"ident", "ABCDEFGHIJKLMNOPQRSTUVWXYZ_0123456789", "ABCDEFGHIJKLMNOPQRSTUVWXYZ_0123456789"},
@@ -622,6 +623,6 @@ func (c *Ctx) checkExprSemantics(r *Report, rule string) bool {
 		return false
 	}
 	okAll = true
-	r.OK(key, "Parse evaluated through the generated lexer/parser and the ANTLR runtime on %d well-formed inputs (%d expressions × 4 spacings: none, single spaces, tabs/newlines/CRLF between all tokens incl. inside field paths, surrounding whitespace; every literal kind and escape, raw control characters and non-ASCII in strings, dotted/indexed paths, duplicates, a field named type, empty bodies, trailing commas, nesting to depth 6) — each result equals the reference flattening; %d malformed inputs each give (nil, error); empty input gives (nil, nil); no panic leaves Parse", nGood, len(corpus), nMal)
+	r.OK(key, "Parse evaluated through the generated lexer/parser and the ANTLR runtime on %d well-formed inputs (%d expressions × 4 spacings: none, single spaces, tabs/newlines/CRLF between all tokens incl. inside field paths, surrounding whitespace; every literal kind and escape, raw control characters and non-ASCII in strings (also beside escapes), dotted/indexed paths, duplicates, a field named type, empty bodies, trailing commas, nesting to depth 6) — each result equals the reference flattening; %d malformed inputs each give (nil, error); empty input gives (nil, nil); no panic leaves Parse", nGood, len(corpus), nMal)
 	return true
 }
